@@ -541,7 +541,11 @@ def builders(repo: Repo, rep: Report) -> None:
     n = 0
     try:
         for (H, W) in ((1, 3), (2, 2), (2, 3), (3, 3)):
-            for symmetry, disallow, use_move in itertools.product((False, True), repeat=3):
+            king = [(dy, dx) for dy in (-1, 0, 1) for dx in (-1, 0, 1) if (dy, dx) != (0, 0)]
+            square2 = [(dy, dx) for dy in range(-2, 3) for dx in range(-2, 3) if (dy, dx) != (0, 0)]
+            # the adjacency option is a flag or an explicit list of forbidden offsets (king moves, the 5x5 square generate_nurikabe builds)
+            for symmetry, disallow, use_move in list(itertools.product((False, True), repeat=3)) + [(True, king, False), (True, square2, False),
+                                                                                                    (False, king, True), (True, square2, True)]:
                 for pattern in range(3):
                     cw = ClassWorld([mod])
                     draws = itertools.cycle([0, 1, 2, 5, 3, 7, 4, 1, 6])
@@ -555,6 +559,9 @@ def builders(repo: Repo, rep: Report) -> None:
                         cur[0][0] = 1
                         if symmetry:
                             cur[H - 1][W - 1] = 2
+                    if pattern >= 1 and symmetry and isinstance(disallow, list):
+                        cur[H - 1][W - 1] = 0  # the partner may sit at a forbidden offset: start from a board that respects the option
+                        cur[0][0] = 0
                     if pattern == 2 and W >= 3 and not disallow:
                         cur[0][W - 1] = 2
                         if symmetry:
@@ -591,11 +598,12 @@ def builders(repo: Repo, rep: Report) -> None:
                                        "not point-symmetric")
                                 break
                         if disallow and not is_move:
+                            offs = [(1, 0), (0, 1), (-1, 0), (0, -1)] if disallow is True else list(disallow)
                             nd_cur = {(y, x) for y in range(H) for x in range(W) if cur[y][x] != 0}
-                            ok_cur = not any((y + 1, x) in nd_cur or (y, x + 1) in nd_cur for (y, x) in nd_cur)
+                            ok_cur = not any((y + dy, x + dx) in nd_cur for (y, x) in nd_cur for dy, dx in offs)
                             nd = {(y, x) for y in range(H) for x in range(W) if nxt[y][x] != 0}
-                            if ok_cur and any((y + 1, x) in nd or (y, x + 1) in nd for (y, x) in nd):
-                                bad = f"{H}x{W} disallow_adjacent builder, current {cur}: value-setting update {upd} gives adjacent non-default cells {nxt}"
+                            if ok_cur and any((y + dy, x + dx) in nd for (y, x) in nd for dy, dx in offs):
+                                bad = f"{H}x{W} disallow_adjacent={'True' if disallow is True else 'offset list of ' + str(len(offs))} (symmetry={symmetry}) builder, current {cur}: value-setting update {upd} gives non-default cells at a forbidden offset: {nxt}"
                                 break
                         if nxt == cur:
                             bad = f"update {upd} does not change the board {cur}"
